@@ -1,12 +1,16 @@
 /-
 Tactics shared by the per-operation invariant proofs of `Acme.Graph`.
 
-`inv_groups h` proves `Inv g'` from `h : Inv g` group by group: a group whose stores are
-untouched closes by `exact` (up to projection reduction); otherwise its fields are proved
-by `grind` from the old facts OF THAT GROUP plus whatever is in the context (branch
-conditions, seed facts about the touched entities, cross-group facts added by hand).
-Keeping the context small matters: all ids are `Nat`, so E-matching instantiates every
-fact with every id in sight.
+`inv_groups h [h₁, …]` proves `Inv g'` from `h : Inv g` group by group.  A group whose
+stores are untouched closes by `exact` (up to projection reduction).  Otherwise, field by
+field: (1) `frame [h₁, …]` rewrites every view of an updated store whose record field is
+unchanged back into the old view, using the look-ups `hᵢ : store.get k = some e` of the
+updated records — a field that only needed framing is then literally an old fact;
+(2) what remains goes to `grind` after the remaining views have been rewritten into
+`if k = x then … else old view` (`views_simp`), with the old facts OF THAT GROUP plus
+whatever is in the context (branch conditions, seed facts about the touched entities,
+cross-group facts added by hand).  Keeping the context small matters: all ids are `Nat`,
+so E-matching instantiates every fact with every id in sight.
 -/
 import Acme.Proofs.GraphFacts
 
@@ -14,12 +18,16 @@ namespace Acme.Graph
 
 /-- `grind` with the toolbox facts that are not registered globally -/
 macro "inv_grind" : tactic =>
-  `(tactic| grind (splits := 30) [Reg.nodup_add, Reg.nodup_remove, Reg.nodup_nil, HasAttr, MsgOnBus,
+  `(tactic| grind (splits := 12) [Reg.nodup_add, Reg.nodup_remove, Reg.nodup_nil, HasAttr, MsgOnBus,
       nodup_eraseRef, nodup_addRef])
 
 /-- rewrite every view of an updated store into the views of the old store: afterwards no
 record literal is left in the goal -/
-macro "views_simp" : tactic =>
+syntax "views_simp" ("[" Lean.Parser.Tactic.simpLemma,* "]")? : tactic
+macro_rules
+  | `(tactic| views_simp) => `(tactic| views_simp [])
+macro_rules
+  | `(tactic| views_simp [$hs,*]) =>
   `(tactic| try simp only [MsgOnBus, HasAttr, netBuses_set, netBusNames_set, busName_set, busParent_set, busBuilder_set, busNodeInts_set,
       busNodeNames_set, busNodeIDs_set, busStaticIDs_set, busAttrs_set, nodeNameC_set, nodeNidC_set,
       nodeIfaces_set, nodeIfaceCount_set, nodeAttrs_set, ifaceNode_set, ifaceNumber_set, ifaceBus_set,
@@ -45,7 +53,20 @@ macro "views_simp" : tactic =>
       dropBuilderRef_builderRefs, dropDefRef_defRefs, renumber_ifaceNode, renumber_ifaceNumber,
       renumber_ifaceBus, renumber_ifaceSent, renumber_ifaceSentNames, renumber_ifaceSentIDs,
       renumber_ifaceSentStatic, renumber_ifaceRecv,
-      busStaticClash_none, busStaticClash_some])
+      busStaticClash_none, busStaticClash_some, $hs,*])
+
+/-- views whose record field is untouched by a `set`: back to the old view -/
+syntax "frame" "[" Lean.Parser.Tactic.simpLemma,* "]" : tactic
+macro_rules
+  | `(tactic| frame [$hs,*]) =>
+    `(tactic| try simp only [MsgOnBus, HasAttr, netBuses_set_keep, netBusNames_set_keep, busName_set_keep, busParent_set_keep, busBuilder_set_keep,
+      busNodeInts_set_keep, busNodeNames_set_keep, busNodeIDs_set_keep, busStaticIDs_set_keep,
+      busAttrs_set_keep, nodeNameC_set_keep, nodeNidC_set_keep, nodeIfaces_set_keep,
+      nodeIfaceCount_set_keep, nodeAttrs_set_keep, ifaceNode_set_keep, ifaceNumber_set_keep,
+      ifaceBus_set_keep, ifaceSent_set_keep, ifaceSentNames_set_keep, ifaceSentIDs_set_keep,
+      ifaceSentStatic_set_keep, ifaceRecv_set_keep, msgName_set_keep, msgMid_set_keep, msgStatic_set_keep,
+      msgSender_set_keep, msgReceivers_set_keep, msgAttrs_set_keep, builderRefs_set_keep,
+      attrRefs_set_keep, defRefs_set_keep, sigTyp_set_keep, sigUnit_set_keep, sigAttrs_set_keep, $hs,*])
 
 /-- normalise the branch conditions (`isSome`, Boolean negations) for `grind` -/
 macro "inv_norm" : tactic =>
@@ -53,55 +74,106 @@ macro "inv_norm" : tactic =>
       Option.isSome_eq_false_iff, Option.isNone_iff_eq_none, Decidable.not_not, Classical.not_not,
       Bool.not_eq_false, Reg.has_true, Reg.has_false] at *)
 
+/-- one field of a touched group -/
+syntax "inv_field" "[" Lean.Parser.Tactic.simpLemma,* "]" : tactic
+macro_rules
+  | `(tactic| inv_field [$hs,*]) =>
+    `(tactic| first
+      | assumption
+      | (frame [$hs,*]; assumption)
+      | (frame [$hs,*]; views_simp [$hs,*]; intros; repeat' split
+         all_goals (subst_vars; try simp only [Reg.get_add, Reg.get_remove, Option.some.injEq, ↓reduceIte])
+         all_goals inv_grind))
+
+set_option hygiene false in
 macro "o_net " h:ident : tactic => `(tactic| obtain ⟨net_bn, net_nn, net_bg, net_ng⟩ := ($h).net)
+set_option hygiene false in
 macro "o_bus " h:ident : tactic => `(tactic| obtain ⟨bus_in, bus_nn, bus_dn, bus_ig, bus_ng, bus_dg⟩ := ($h).bus)
+set_option hygiene false in
 macro "o_static " h:ident : tactic => `(tactic| obtain ⟨st_n, st_g⟩ := ($h).static)
+set_option hygiene false in
 macro "o_sent " h:ident : tactic => `(tactic| obtain ⟨se_sn, se_nn, se_in, se_tn, se_sg, se_ng, se_ig, se_tg⟩ := ($h).sent)
+set_option hygiene false in
 macro "o_recv " h:ident : tactic => `(tactic| obtain ⟨re_rn, re_mn, re_v, re_g, re_nd⟩ := ($h).recv)
+set_option hygiene false in
 macro "o_node " h:ident : tactic => `(tactic| obtain ⟨nd_n, nd_nd, nd_num, nd_c, nd_ex, nd_live⟩ := ($h).node)
+set_option hygiene false in
 macro "o_builder " h:ident : tactic => `(tactic| obtain ⟨bl_n, bl_m⟩ := ($h).builder)
+set_option hygiene false in
 macro "o_attr " h:ident : tactic => `(tactic| obtain ⟨at_n, at_m, at_bd, at_bm, at_bs, at_dm, at_ds, at_ms⟩ := ($h).attr)
+set_option hygiene false in
 macro "o_typ " h:ident : tactic => `(tactic| obtain ⟨ty_n, ty_m⟩ := ($h).typ)
+set_option hygiene false in
 macro "o_unit " h:ident : tactic => `(tactic| obtain ⟨un_n, un_m⟩ := ($h).unit)
 
-macro "g_net " h:ident : tactic =>
-  `(tactic| first | exact ($h).net | (o_net $h; refine ⟨?_, ?_, ?_, ?_⟩ <;> (first | assumption | (views_simp; inv_grind))))
-macro "g_bus " h:ident : tactic =>
-  `(tactic| first | exact ($h).bus | (o_bus $h; refine ⟨?_, ?_, ?_, ?_, ?_, ?_⟩ <;> (first | assumption | (views_simp; inv_grind))))
-macro "g_static " h:ident : tactic =>
-  `(tactic| first | exact ($h).static | (o_static $h; refine ⟨?_, ?_⟩ <;> (first | assumption | (views_simp; inv_grind))))
-macro "g_sent " h:ident : tactic =>
-  `(tactic| first | exact ($h).sent | (o_sent $h; refine ⟨?_, ?_, ?_, ?_, ?_, ?_, ?_, ?_⟩ <;> (first | assumption | (views_simp; inv_grind))))
-macro "g_recv " h:ident : tactic =>
-  `(tactic| first | exact ($h).recv | (o_recv $h; refine ⟨?_, ?_, ?_, ?_, ?_⟩ <;> (first | assumption | (views_simp; inv_grind))))
-macro "g_node " h:ident : tactic =>
-  `(tactic| first | exact ($h).node | (o_node $h; refine ⟨?_, ?_, ?_, ?_, ?_, ?_⟩ <;> (first | assumption | (views_simp; inv_grind))))
-macro "g_builder " h:ident : tactic =>
-  `(tactic| first | exact ($h).builder | (o_builder $h; refine ⟨?_, ?_⟩ <;> (first | assumption | (views_simp; inv_grind))))
-macro "g_attr " h:ident : tactic =>
-  `(tactic| first | exact ($h).attr | (o_attr $h; refine ⟨?_, ?_, ?_, ?_, ?_, ?_, ?_, ?_⟩ <;> (first | assumption | (views_simp; inv_grind))))
-macro "g_typ " h:ident : tactic =>
-  `(tactic| first | exact ($h).typ | (o_typ $h; refine ⟨?_, ?_⟩ <;> (first | assumption | (views_simp; inv_grind))))
-macro "g_unit " h:ident : tactic =>
-  `(tactic| first | exact ($h).unit | (o_unit $h; refine ⟨?_, ?_⟩ <;> (first | assumption | (views_simp; inv_grind))))
+syntax "g_net " ident "[" Lean.Parser.Tactic.simpLemma,* "]" : tactic
+macro_rules
+  | `(tactic| g_net $h:ident [$hs,*]) =>
+    `(tactic| first | exact ($h).net | (have hgrp := ($h).net; o_net $h; refine ⟨?_, ?_, ?_, ?_⟩ <;> inv_field [$hs,*]))
+syntax "g_bus " ident "[" Lean.Parser.Tactic.simpLemma,* "]" : tactic
+macro_rules
+  | `(tactic| g_bus $h:ident [$hs,*]) =>
+    `(tactic| first | exact ($h).bus | (have hgrp := ($h).bus; o_bus $h; refine ⟨?_, ?_, ?_, ?_, ?_, ?_⟩ <;> inv_field [$hs,*]))
+syntax "g_static " ident "[" Lean.Parser.Tactic.simpLemma,* "]" : tactic
+macro_rules
+  | `(tactic| g_static $h:ident [$hs,*]) =>
+    `(tactic| first | exact ($h).static | (have hgrp := ($h).static; o_static $h; refine ⟨?_, ?_⟩ <;> inv_field [$hs,*]))
+syntax "g_sent " ident "[" Lean.Parser.Tactic.simpLemma,* "]" : tactic
+macro_rules
+  | `(tactic| g_sent $h:ident [$hs,*]) =>
+    `(tactic| first | exact ($h).sent | (have hgrp := ($h).sent; o_sent $h; refine ⟨?_, ?_, ?_, ?_, ?_, ?_, ?_, ?_⟩ <;> inv_field [$hs,*]))
+syntax "g_recv " ident "[" Lean.Parser.Tactic.simpLemma,* "]" : tactic
+macro_rules
+  | `(tactic| g_recv $h:ident [$hs,*]) =>
+    `(tactic| first | exact ($h).recv | (have hgrp := ($h).recv; o_recv $h; refine ⟨?_, ?_, ?_, ?_, ?_⟩ <;> inv_field [$hs,*]))
+syntax "g_node " ident "[" Lean.Parser.Tactic.simpLemma,* "]" : tactic
+macro_rules
+  | `(tactic| g_node $h:ident [$hs,*]) =>
+    `(tactic| first | exact ($h).node | (have hgrp := ($h).node; o_node $h; refine ⟨?_, ?_, ?_, ?_, ?_, ?_⟩ <;> inv_field [$hs,*]))
+syntax "g_builder " ident "[" Lean.Parser.Tactic.simpLemma,* "]" : tactic
+macro_rules
+  | `(tactic| g_builder $h:ident [$hs,*]) =>
+    `(tactic| first | exact ($h).builder | (have hgrp := ($h).builder; o_builder $h; refine ⟨?_, ?_⟩ <;> inv_field [$hs,*]))
+syntax "g_attr " ident "[" Lean.Parser.Tactic.simpLemma,* "]" : tactic
+macro_rules
+  | `(tactic| g_attr $h:ident [$hs,*]) =>
+    `(tactic| first | exact ($h).attr | (have hgrp := ($h).attr; o_attr $h; refine ⟨?_, ?_, ?_, ?_, ?_, ?_, ?_, ?_⟩ <;> inv_field [$hs,*]))
+syntax "g_typ " ident "[" Lean.Parser.Tactic.simpLemma,* "]" : tactic
+macro_rules
+  | `(tactic| g_typ $h:ident [$hs,*]) =>
+    `(tactic| first | exact ($h).typ | (have hgrp := ($h).typ; o_typ $h; refine ⟨?_, ?_⟩ <;> inv_field [$hs,*]))
+syntax "g_unit " ident "[" Lean.Parser.Tactic.simpLemma,* "]" : tactic
+macro_rules
+  | `(tactic| g_unit $h:ident [$hs,*]) =>
+    `(tactic| first | exact ($h).unit | (have hgrp := ($h).unit; o_unit $h; refine ⟨?_, ?_⟩ <;> inv_field [$hs,*]))
 
 /-- split `Inv g'` into its ten groups (goals tagged `net`, `bus`, …) -/
 macro "inv_split" : tactic =>
   `(tactic| refine ⟨?net, ?bus, ?static, ?sent, ?recv, ?node, ?builder, ?attr, ?typ, ?unit⟩)
 
-macro "inv_groups " h:ident : tactic =>
-  `(tactic| (
+/-- the groups not yet closed (dispatch by trying each group tactic) -/
+syntax "inv_rest " ident "[" Lean.Parser.Tactic.simpLemma,* "]" : tactic
+macro_rules
+  | `(tactic| inv_rest $h:ident [$hs,*]) =>
+    `(tactic| all_goals first
+      | g_net $h [$hs,*] | g_bus $h [$hs,*] | g_static $h [$hs,*] | g_sent $h [$hs,*] | g_recv $h [$hs,*]
+      | g_node $h [$hs,*] | g_builder $h [$hs,*] | g_attr $h [$hs,*] | g_typ $h [$hs,*] | g_unit $h [$hs,*])
+
+syntax "inv_groups " ident "[" Lean.Parser.Tactic.simpLemma,* "]" : tactic
+macro_rules
+  | `(tactic| inv_groups $h:ident [$hs,*]) =>
+    `(tactic| (
       inv_norm
       inv_split
-      case net => g_net $h
-      case bus => g_bus $h
-      case static => g_static $h
-      case sent => g_sent $h
-      case recv => g_recv $h
-      case node => g_node $h
-      case builder => g_builder $h
-      case attr => g_attr $h
-      case typ => g_typ $h
-      case unit => g_unit $h))
+      case net => g_net $h [$hs,*]
+      case bus => g_bus $h [$hs,*]
+      case static => g_static $h [$hs,*]
+      case sent => g_sent $h [$hs,*]
+      case recv => g_recv $h [$hs,*]
+      case node => g_node $h [$hs,*]
+      case builder => g_builder $h [$hs,*]
+      case attr => g_attr $h [$hs,*]
+      case typ => g_typ $h [$hs,*]
+      case unit => g_unit $h [$hs,*]))
 
 end Acme.Graph
